@@ -26,9 +26,13 @@ GEN_FILE = os.path.join(common.COQ, "Generated", "C14_Builtins.v")
 FINDINGS = {
     "F1": "fp:sub:dict:KeyError",
     "F2": "fp:mcall:int.to_bytes:None",
-    "F3": "fp:attr:int.as_integer_ratio:None",
+    "F3": "fp:attr:int.as_integer_ratio:None + fp:mcall:int.as_integer_ratio:None",
     "F4": "fn:bin:set.__sub__",
     "F5": "fn:sub:list[float]",
+    # oracle-only (in-place operators and the empty-container literals are not in the Coq model)
+    "F6": "fp:ibin:list:+:user:None",
+    "F7": "fp:ibin:dict:|:str:ValueError",
+    "F8": "fn:sub:dict[unhashable]",
 }
 
 ADV_OPS = set(g.ADVERTISED)
@@ -84,7 +88,14 @@ def random_statements(classes, r, n):
   used = sorted({d - (d % 2) if d < 2 * g.N_BIN else d for c in classes for d in c["dunders"] if d <= g.GETITEM})
   attrs = sorted({a for c in classes for a, _ in c["cattrs"] + (c["init"] or [])} | {"zz"})
   out = []
-  for _ in range(n):
+  # the statements that observe the option order: left operand a base class of the right operand
+  mros = g.user_mro(classes)
+  pairs = [(a, g.NB + i) for i, m in enumerate(mros) for a in m[1:-1]] + [(0, g.NB + i) for i in range(len(classes))]
+  r.shuffle(pairs)
+  for a, b in pairs[:15]:
+    ops = [d - 1 for d in range(1, 2 * g.N_BIN, 2) if any(d in classes[k - g.NB]["dunders"] for k in mros[b - g.NB][:-1])]
+    out.append(dict(st=("bin", a, r.choice(ops) if ops else 0, b), variant=(0, 0), model=True))
+  for _ in range(max(0, n - len(out))):
     z = r.random()
     x = r.choice(users) if r.random() < 0.8 else r.randrange(g.NB)
     y = r.choice(users) if r.random() < 0.6 else r.randrange(g.NB)
@@ -231,7 +242,7 @@ def cls_name(classes, c):
   return g.HEADS[c][0] if c < g.NB else classes[c - g.NB]["name"]
 
 
-def fingerprint(classes, rec, direction, exc, data):
+def fingerprint(classes, rec, direction, exc, msg=""):
   st = rec["st"]
   k = st[0]
   xc = cls_name(classes, st[1]) if st[1] < g.NB else "user"
@@ -247,17 +258,21 @@ def fingerprint(classes, rec, direction, exc, data):
     core = f"{k}:{xc}.{g.FIXED_NAMES[st[2]]}" if direction == "fn" else f"{k}:{xc}:{sym}:{yc}"
   elif k == "sub":
     yc = cls_name(classes, st[2]) if st[2] < g.NB else "user"
+    if msg.startswith("unhashable type"):
+      yc = "unhashable"
     core = f"sub:{xc}[{yc}]" if direction == "fn" else f"sub:{xc}"
   else:
     core = f"{k}:{xc}"
   return f"{direction}:{core}" + (f":{exc}" if direction == "fp" else "")
 
 
-def run_module(classes, recs, names, idx, res, stats, model_codes, tag):
-  """Runs real pytype and CPython on one module's statements, compares with the model, applies the oracle."""
-  pre = g.class_source(classes)
-  texts = [g.stmt_text(classes, rc["st"], f"v{j}", rc["variant"]) for j, rc in enumerate(recs)]
-  py = g.run_pytype(pre, texts)
+def module_texts(classes, recs):
+  return g.class_source(classes), [g.stmt_text(classes, rc["st"], f"v{j}", rc["variant"]) for j, rc in enumerate(recs)]
+
+
+def run_module(classes, recs, names, idx, res, stats, model_codes, tag, pre, texts, py):
+  """Compares real pytype's and CPython's answers on one module's statements with the models and applies
+  the oracle."""
   cp = g.run_cpython(pre, texts)
   mism_py, mism_c = [], []
   mi = 0
@@ -265,6 +280,11 @@ def run_module(classes, recs, names, idx, res, stats, model_codes, tag):
     errs, typ = py[j]
     exc, msg, tname = cp[j]
     st = rc["st"]
+    if errs == g.NO_RESULT:
+      stats["no_result"].append(dict(stmt=texts[j], why=typ))
+      if rc["model"]:
+        mi += 1
+      continue
     flagged = bool(errs)
     raised = g.is_type_error(exc)
     stats["kinds"][st[0]] += 1
@@ -293,16 +313,16 @@ def run_module(classes, recs, names, idx, res, stats, model_codes, tag):
         mism_c.append(dict(stmt=texts[j], model=dc, cpython=[exc, msg[:80], tname]))
     # ---- the oracle, on the implementation's output only
     if flagged and not raised:
-      fp = fingerprint(classes, rc, "fp", exc, None)
+      fp = fingerprint(classes, rc, "fp", exc)
       stats["fp"][fp] += 1
-      if stats["fp"][fp] == 1:
+      if stats["fp"][fp] == 1 and (fp in res.known or len(res.violations) < 3):
         res.violation(fp, f"pytype reports {errs} on `{texts[j]}`; CPython: "
                       + (f"raises {exc} (not a TypeError/AttributeError)" if exc else "runs cleanly"),
                       dict(classes=pre, stmt=texts[j], pytype=errs, cpython=exc, kind="fp"))
     if raised and not flagged and advertised(classes, rc, exc, msg):
-      fp = fingerprint(classes, rc, "fn", exc, None)
+      fp = fingerprint(classes, rc, "fn", exc, msg)
       stats["fn"][fp] += 1
-      if stats["fn"][fp] == 1:
+      if stats["fn"][fp] == 1 and (fp in res.known or len(res.violations) < 3):
         res.violation(fp, f"CPython raises {exc} ({msg[:70]}) on `{texts[j]}`; pytype reports nothing",
                       dict(classes=pre, stmt=texts[j], pytype=errs, cpython=exc, kind="fn"))
     if len(res.samples) < 5 and flagged and raised and st[1] >= g.NB:
@@ -400,7 +420,10 @@ def run(res):
   corpus = []
   for f in sorted(os.listdir(cdir)) if os.path.isdir(cdir) else []:
     for e in json.load(open(os.path.join(cdir, f)))["statements"]:
-      corpus.append(dict(st=tuple(e), variant=(0, 0), model=True))
+      if isinstance(e, dict):       # oracle-only entries: in-place operators / second literal of a head
+        corpus.append(dict(st=tuple(e["st"]), variant=tuple(e.get("variant", (0, 0))), model=False))
+      else:
+        corpus.append(dict(st=tuple(e), variant=(0, 0), model=True))
   recs = corpus + recs
   for off in range(0, len(recs), 100):
     modules.append(("fixed", classes, recs[off:off + 100]))
@@ -422,11 +445,15 @@ def run(res):
   t1 = time.time()
   # ---- implementation runs + comparisons + oracle
   stats = dict(kinds=collections.Counter(), exc=collections.Counter(), pytype=collections.Counter(),
-               fp=collections.Counter(), fn=collections.Counter())
+               fp=collections.Counter(), fn=collections.Counter(), no_result=[])
   all_py, all_c = [], []
   n_model = 0
-  for (tag, cl, rs), mc in zip(modules, codes):
-    a, b = run_module(cl, rs, names, idx, res, stats, mc, tag)
+  srcs = [module_texts(cl, rs) for _, cl, rs in modules]
+  py_all = g.run_pytype_many(srcs)
+  g.close_pool()
+  res.extra["seconds_pytype"] = round(time.time() - t1, 1)
+  for (tag, cl, rs), mc, (pre, texts), py in zip(modules, codes, srcs, py_all):
+    a, b = run_module(cl, rs, names, idx, res, stats, mc, tag, pre, texts, py)
     all_py += a
     all_c += b
     n_model += sum(1 for rc in rs if rc["model"])
@@ -444,6 +471,7 @@ def run(res):
   res.extra["kind_histogram"] = dict(stats["kinds"])
   res.extra["cpython_outcomes"] = dict(stats["exc"])
   res.extra["pytype_outcomes"] = dict(stats["pytype"].most_common(12))
+  res.extra["pytype_gave_no_result"] = stats["no_result"][:20]
   res.extra["oracle_false_positive_statements"] = dict(stats["fp"])
   res.extra["oracle_missed_mistake_statements"] = dict(stats["fn"])
   res.extra["seconds_total"] = round(time.time() - t0, 1)
@@ -464,6 +492,7 @@ def replay(res, path):
   d = json.load(open(path))["replay"]
   pre, stmt = d["classes"], d["stmt"]
   (errs, typ), = g.run_pytype(pre, [stmt])
+  g.close_pool()
   (exc, msg, tname), = g.run_cpython(pre, [stmt])
   print("statement:", stmt)
   print("pytype   :", errs or "no error", "type", typ)
